@@ -9,9 +9,9 @@ if [ -n "$(git -C /repo status --porcelain)" ]; then echo "/repo is not clean"; 
 props_for() {
   case "$1" in
     *lisp/stack.go*) echo "C04 C05 C02";;
-    *lisp/env.go*) echo "C02 C04 C05 C06 C07 C08 C09 C18";;
+    *lisp/env.go*) echo "C01 C02 C04 C05 C06 C07 C08 C09 C18";;
     *lisp/builtins.go*) echo "C03 C09 C11 C02";;
-    *lisp/op.go*) echo "C06 C05 C02 C03";;
+    *lisp/op.go*) echo "C01 C06 C05 C02 C03";;
     *lisp/package.go*) echo "C08 C03";;
     *lisp/library.go*) echo "C20";;
     *libschema*) echo "C14 C03";;
